@@ -332,7 +332,7 @@ def main(run, args):
                     failing.append({"what": "a proposal issued by the observer as external sender was not committed", "script": sc["name"], "proposal": xp, "applied": kinds, "unused": (nxt[0].get("info") or {}).get("unused")})
     mism = []
     coq_cases = 0
-    if proofs_ok and adm:
+    if model_ready(proofs_ok) and adm:
         text = ("From Coq Require Import NArith List Bool.\nFrom MlsV Require Import Admission.\nImport ListNotations.\nLocal Open Scope N_scope.\n"
                 "Definition obs_ct (j : option N) (e m : N) : N :=\n"
                 "  match check_metadata {| av_version_ok := true; av_gid := 1; av_epoch := e; av_min := match j with Some x => Some (min_epoch_saturating e x) | None => None end; av_stored := [] |} 1 m CtApplication true with\n"
